@@ -1402,6 +1402,26 @@ func c06ContinuationIndent(c *Ctx, R string) {
 				return true
 			}
 			arg := ast.Unparen(call.Args[mi])
+			if id, isID := arg.(*ast.Ident); isID {
+				if d := singleDef(info, fi.Decl.Body, id); d != nil {
+					arg = ast.Unparen(d)
+				}
+			}
+			// a node whose own column is the base of another call's minimum column is a KEY node
+			if len(call.Args) > 0 {
+				if no := objOf(info, call.Args[0]); no != nil {
+					isKeyNode := false
+					ast.Inspect(fi.Decl.Body, func(m ast.Node) bool {
+						if sel, isSel := m.(*ast.SelectorExpr); isSel && sel.Sel.Name == "Column" && objOf(info, sel.X) == no {
+							isKeyNode = true
+						}
+						return true
+					})
+					if isKeyNode {
+						return true
+					}
+				}
+			}
 			// map keys are single tokens on one line: their minimum column is never used
 			isKey := false
 			ast.Inspect(fi.Decl.Body, func(m ast.Node) bool {
